@@ -60,3 +60,28 @@ chk('C05', 'translation_validation',
     'and per (filler, container) provenance label z3 proves, with the point symbolic, that the written volumes cover exactly '
     'region_container(p) and region_filler(T^-1 p) (and deeper levels) and carry the composition of the innermost filler.',
     TV_NOTE + '; rotations from a finite exact set, at most 3 symbolic numbers per deck', TV_TECH, 'DESIGN.md 4/C05')
+
+chk('C13', 'translation_validation',
+    'FILL decks (C05 family) under all 2^3 combinations of --skip-deduplication / --always-inline-filling / --always-inline-filled with '
+    '--max-inline-score a symbolic real (the comparison score < max_inline_score forks, so every threshold is covered): every output is '
+    'validated against the same reference by z3 with the point symbolic, hence all outputs assign every point the same provenance and '
+    'composition. Plus SurfaceT4.__eq__/__hash__ on symbolic parameter tuples: wherever the converter finds two surfaces equal, z3 proves '
+    'their implicit functions coincide.', TV_NOTE, TV_TECH, 'DESIGN.md 4/C13')
+chk('C15', 'translation_validation',
+    'LIKE n BUT decks (level-0 copies, copies in a universe, copies of a filled container with changed FILL/placement, LIKE of LIKE, copy '
+    'moved into a universe) with symbolic displacements, radii and overriding importances; the reference expands each LIKE card by the MCNP '
+    'rule and z3 decides, per path and label, region equality, composition and omission.', TV_NOTE, TV_TECH, 'DESIGN.md 4/C15')
+chk('C09', 'translation_validation',
+    'Ownership: per path and per written volume z3 decides (point symbolic) that its GEOMCOMP composition is that of the innermost filler '
+    'owning its points (material number and density value read back with an independent numeral parser), over FILL and LIKE-BUT decks with '
+    'symbolic placements. Spelling: bounded enumeration (strings cannot be symbolic: regex code) of density spellings from the classes of the '
+    'property through the real pipeline: same composition iff numerically equal.',
+    TV_NOTE + '; the spelling part is enumeration over listed spelling classes, not a solver verdict', TV_TECH + ' (+ bounded enumeration of spellings)',
+    'DESIGN.md 4/C09')
+chk('C08', 'other',
+    '(a) every text written on every feasible path of symbolic runs over four deck families (C01, C05, C15, C16) and six writer-switch '
+    'combinations is parsed and validated structurally (ids, references, counts, both-sides, GEOMCOMP coverage, COMPOSITION count, finite '
+    'numbers); (b) one step of remove_empty_volumes / remove_unused_volumes / renumber_surfaces from generated tables of volumes, z3 proving '
+    'region preservation over Boolean senses.',
+    'T4 syntax as written by the converter; tables of <= 4 volumes; known finding F2 (dangling boundary-condition ids) listed in known_findings.json',
+    'symbolic execution of the real pipeline + structural validator; z3 Boolean equivalence for the pruning step', 'DESIGN.md 4/C08')
